@@ -165,7 +165,10 @@ def lookupExact (env : Env) : Nat → RS → String → Namespace → List Names
   | 0, st, _, _, _ => ({ st with outOfFuel := true }, false)
   | _, st, _, _, [] => (st, false)
   | fuel + 1, st, name, ctx, ns :: rest =>
-    if (env.defOf ⟨ns, name⟩).isSome then (visit env fuel st ⟨ns, name⟩, true)
+    -- (after the fix: every namespace that has the name is visited, not only the first)
+    if (env.defOf ⟨ns, name⟩).isSome then
+      let (st', _) := lookupExact env fuel (visit env fuel st ⟨ns, name⟩) name ctx rest
+      (st', true)
     else lookupExact env fuel st name ctx rest
 
 def lookupPrefixes (env : Env) : Nat → RS → String → Namespace → List String → RS × Bool
